@@ -6,7 +6,7 @@ W = "/tmp/seed/s%s-%s" % (rnd, pid)
 O = "/tmp/seed/out%s-%s" % (rnd, pid)
 print(f"""You are testing how robust a verification effort is. The Python library fabric-testbed/InformationModel is checked out in a
 scratch git worktree at {W} (your own copy; work ONLY there and under {O}; never touch /repo or /verif, and do not read anything
-under /verif). Run it with `/venv/bin/python` and `PYTHONPATH={W}`. The sandbox has no network.
+under /verif; never use `git stash` - it is shared between worktrees). Run it with `/venv/bin/python` and `PYTHONPATH={W}`. The sandbox has no network.
 
 This semantic property of the library is supposed to hold:
 
@@ -28,7 +28,10 @@ value, a particular order, a failure at a particular point, or two cooperating s
 changes that ordinary use or the first obvious call would expose at once, and do not produce crashes on every call. The three
 changes must be in different mechanisms/clauses of the property (do not make three variants of one idea). Read the anchored code
 thoroughly first; prefer subtle places: less-used entry points, alternative code paths (the other backend, the other format, the
-bulk variant of a setter, the error path), boundary cases, ordering, aliasing, falsy-but-valid values, name/prefix collisions.
+bulk variant of a setter, the error path), boundary cases, ordering, aliasing, falsy-but-valid values, name/prefix collisions,
+state left behind by an earlier (possibly failed) call, caches that go stale, two code sites that must agree, behaviour that
+depends on iteration order of a dict/set, differences between the two in-memory backends, values that only appear after a
+serialize/deserialize cycle. At least one of the three should need a sequence of THREE or more calls to manifest.
 
 For each change i = 1, 2, 3:
   1. start from a clean worktree (`git -C {W} checkout -- . && git -C {W} clean -fdq`), make the change, and save it with
